@@ -191,6 +191,11 @@ func (s *State) doCall(w *Worker, t *Thread, fr *Frame, fnVal Value, args []Valu
 	if fn.Blocks == nil {
 		s.unsupported("call of external function %s", fi.name)
 	}
+	// package os acts on the file-system model through intrinsics only: running the real body of any
+	// other os function on model descriptors would give answers about the wrong world
+	if fn.Pkg != nil && fn.Pkg.Pkg.Path() == "os" && !osPureFuncs[fi.name] {
+		s.unsupported("%s is not covered by the file-system model", fi.name)
+	}
 	if len(t.frames) > maxDepth {
 		s.abort("UNWIND", "call depth exceeds %d", maxDepth)
 	}
@@ -211,6 +216,14 @@ func (s *State) doCall(w *Worker, t *Thread, fr *Frame, fnVal Value, args []Valu
 	nf := s.newFrame(fn, args, env, dest)
 	nf.callSite = site
 	t.frames = append(t.frames, nf)
+}
+
+// osPureFuncs: functions of package os whose real bodies only call modelled functions or touch no file.
+var osPureFuncs = map[string]bool{
+	"os.Open": true, "os.Create": true, "os.IsNotExist": true, "os.IsExist": true, "os.IsPermission": true,
+	"os.IsTimeout": true, "os.underlyingError": true, "os.underlyingErrorIs": true, "(*os.File).WriteString": true,
+	"(*os.SyscallError).Error": true, "(*os.LinkError).Error": true, "os.NewSyscallError": true,
+	"(*os.SyscallError).Unwrap": true, "(*os.LinkError).Unwrap": true,
 }
 
 type blockSignal struct{}
